@@ -157,12 +157,12 @@ def sresOf (base k : Nat) : SRes :=
 `base|k` of a conforming host (`k` ≤ what was offered), the result is `Complete(k)` — `Dropped` /
 `Cancelled` only for `k = 0` — the buffer advanced by exactly `k`, nothing else of it changed, the
 lists of exactly the first `k` values of the window are deallocated (in order), and the writer is
-marked done exactly for DROPPED with `k > 0`. -/
+marked done exactly for DROPPED (any count, 0 included). -/
 theorem streamWrite_update_spec (p : WSt) (base k : Nat) (hb : base < 3) (hk : k ≤ p.buf.remaining)
     (hk2 : k ≤ 268435455) (hc : p.buf.cursor ≤ p.buf.items.length) :
     streamWriteUpdate p (Host.packCode base k) =
       .ok (.inl (sresOf base k,
-        { buf := { p.buf with cursor := p.buf.cursor + k }, wr := { p.wr with done := p.wr.done || (base == 1 && k != 0) } }))
+        { buf := { p.buf with cursor := p.buf.cursor + k }, wr := { p.wr with done := p.wr.done || base == 1 } }))
         (if p.buf.kind = .lists then (p.buf.window.take k).map (evDli p.buf.c) else []) := by
   have hadv := AbiBuffer.advance_spec p.buf k hk hc
   unfold streamWriteUpdate
@@ -196,12 +196,12 @@ theorem streamWrite_update_panics (p : WSt) (base k : Nat) (hb : base < 3) (hk :
 with `k` ≤ the spare capacity, the result is `Complete(k)` (`Dropped`/`Cancelled` only for `k = 0`),
 exactly the first `k` values the host wrote are appended to the vector (each lifted once, in order, if
 the payload needs lifting), the slab is released, and the reader is marked done exactly for DROPPED
-with `k > 0`. -/
+(any count, 0 included). -/
 theorem streamRead_update_spec (p : RSt) (base k : Nat) (hb : base < 3) (hk : k ≤ p.spare) (hk2 : k ≤ 268435455) :
     streamReadUpdate p (Host.packCode base k) =
       .ok (.inl (sresOf base k,
         { p with buf := p.buf ++ p.mem.take k, spare := p.spare - k, slab := false, mem := [],
-                 rd := { p.rd with done := p.rd.done || (base == 1 && k != 0) } }))
+                 rd := { p.rd with done := p.rd.done || base == 1 } }))
         ((if p.kind.lowers then (p.mem.take k).map (evLi p.c) else []) ++ p.freeSlab) := by
   unfold streamReadUpdate
   rw [decode_pack base k hb hk2]
